@@ -74,6 +74,8 @@ func verifC15() {
 		}
 		if layout == 5 {
 			files[dir+"x_test.go"] = "package " + verifC15Name(i) + "\n\nimport \"log\"\n\nvar T = log.Note(\"TESTFILE " + verifC15Name(i) + "\")\n"
+			files[dir+"y_test.go"] = "package " + verifC15Name(i) + "\n\nimport \"log\"\n\nvar T2 = log.Note(\"TESTFILE2 " + verifC15Name(i) + "\")\n\nfunc init() {\n\tlog.Note(\"TESTFILE3 " + verifC15Name(i) + "\")\n}\n"
+			files[dir+"x_more_test.go"] = "package " + verifC15Name(i) + "\n\nimport \"log\"\n\nvar T4 = log.Note(\"TESTFILE4 " + verifC15Name(i) + "\")\n"
 			files[dir+"excluded.go"] = "//go:build ignore\n\npackage " + verifC15Name(i) + "\n\nimport \"log\"\n\nvar E = log.Note(\"EXCLUDED " + verifC15Name(i) + "\")\n"
 			files[dir+"nongoat.go"] = "//go:build !goat\n\npackage " + verifC15Name(i) + "\n\nimport \"log\"\n\nvar N = log.Note(\"NONGOAT " + verifC15Name(i) + "\")\n"
 			files[dir+"goatonly.go"] = "//go:build goat\n\npackage " + verifC15Name(i) + "\n\nimport \"log\"\n\nvar G = log.Note(\"goat " + verifC15Name(i) + "\")\n"
